@@ -221,3 +221,65 @@ func runSubscriberRespawnStress(rounds int) ([]*Trace, error) {
 	return []*Trace{{Events: ev, Class: "subscriber-respawn-stress", Name: fmt.Sprintf("subscriber respawn stress (%d of %d rounds)", round.Load(), rounds),
 		Scenario: map[string]any{"rounds": rounds, "completed": round.Load(), "what": "child 'c' subscribes at launch and is replaced under the same name after its first event; a publisher publishes continuously; the incarnation of the last round received nothing for 1.5 s"}}}, nil
 }
+
+// runManySubscribers: many actors subscribed to one type, one publisher that publishes a burst from inside one turn.
+// Every subscriber must see the publisher's events in publication order, each once (StreamMon.PublisherOrder,
+// ExactlyOnce, DeliveredToEverySubscriber).  Ungated: real mailboxes, real goroutines.
+func runManySubscribers(seed int64, nSubs, nPubs int) (*Trace, error) {
+	verifhook.Set(nil)
+	sys := actor.NewSystem(vivid.WithActorSystemContext(context.Background()), vivid.WithActorSystemLogger(silentLogger), vivid.WithActorSystemStopTimeout(2*time.Second))
+	if err := sys.Start(); err != nil {
+		return nil, err
+	}
+	defer func() { go sys.Stop(2 * time.Second) }()
+	var mu sync.Mutex
+	var events []map[string]any
+	ev := func(e map[string]any) { mu.Lock(); events = append(events, e); mu.Unlock() }
+	var ready, got atomic.Int64
+	for i := 0; i < nSubs; i++ {
+		name := fmt.Sprintf("s%d", i)
+		if _, err := sys.ActorOf(vivid.ActorFN(func(ctx vivid.ActorContext) {
+			switch m := ctx.Message().(type) {
+			case *vivid.OnLaunch:
+				ctx.EventStream().Subscribe(ctx, evA{})
+				ev(map[string]any{"e": "Sub", "a": name, "s": "A"})
+				ready.Add(1)
+			case evA:
+				ev(map[string]any{"e": "Deliv", "a": name, "k": "event", "m": m.ID, "i": 1, "s": "A"})
+				got.Add(1)
+			}
+		}), vivid.WithActorName(name)); err != nil {
+			return nil, err
+		}
+	}
+	for i := 0; i < 3000 && int(ready.Load()) < nSubs; i++ {
+		time.Sleep(time.Millisecond)
+	}
+	if int(ready.Load()) < nSubs {
+		return nil, fmt.Errorf("only %d of %d subscribers launched", ready.Load(), nSubs)
+	}
+	pub, err := sys.ActorOf(vivid.ActorFN(func(ctx vivid.ActorContext) {
+		if s, ok := ctx.Message().(string); ok && s == "go" {
+			for id := 1; id <= nPubs; id++ {
+				ev(map[string]any{"e": "Pub", "a": "pub", "m": id, "s": "A"})
+				ctx.EventStream().Publish(ctx, evA{ID: id})
+			}
+		}
+	}), vivid.WithActorName("pub"))
+	if err != nil {
+		return nil, err
+	}
+	sys.Tell(pub, "go")
+	want := int64(nSubs * nPubs)
+	for i := 0; i < 5000 && got.Load() < want; i++ {
+		time.Sleep(time.Millisecond)
+	}
+	time.Sleep(20 * time.Millisecond)
+	ev(map[string]any{"e": "QBegin", "s": "rest"})
+	ev(map[string]any{"e": "QEnd"})
+	mu.Lock()
+	out := append([]map[string]any{}, events...)
+	mu.Unlock()
+	return &Trace{Events: out, Class: "many-subscribers", Name: fmt.Sprintf("many-subscribers#%d", seed),
+		Scenario: map[string]any{"subscribers": nSubs, "publications": nPubs, "publisher": "one actor, one turn"}}, nil
+}
